@@ -60,13 +60,17 @@ func (r *ring) PutOne(_ context.Context, m Completed) (chan RedisResult, error) 
 	n := &r.store[atomic.AddUint32(&r.write, 1)&r.mask]
 	n.c1.L.Lock()
 	for n.mark != 0 {
+		vhookq("ring.put.wait", r, n)
 		n.c1.Wait()
+		vhookq("ring.put.woken", r, n)
 	}
 	n.one = m
 	n.mark = 1
 	s := n.slept
+	vhookq("ring.put.fill", r, n)
 	n.c1.L.Unlock()
 	if s {
+		vhookq("ring.put.bcast", r, n)
 		n.c2.Broadcast()
 	}
 	return n.ch, nil
@@ -76,14 +80,18 @@ func (r *ring) PutMulti(_ context.Context, m []Completed, resps []RedisResult) (
 	n := &r.store[atomic.AddUint32(&r.write, 1)&r.mask]
 	n.c1.L.Lock()
 	for n.mark != 0 {
+		vhookq("ring.put.wait", r, n)
 		n.c1.Wait()
+		vhookq("ring.put.woken", r, n)
 	}
 	n.multi = m
 	n.resps = resps
 	n.mark = 1
 	s := n.slept
+	vhookq("ring.put.fill", r, n)
 	n.c1.L.Unlock()
 	if s {
+		vhookq("ring.put.bcast", r, n)
 		n.c2.Broadcast()
 	}
 	return n.ch, nil
@@ -98,8 +106,10 @@ func (r *ring) NextWriteCmd() (one Completed, multi []Completed, ch chan RedisRe
 	if n.mark == 1 {
 		one, multi, ch = n.one, n.multi, n.ch
 		n.mark = 2
+		vhookq("ring.nw.take", r, n)
 	} else {
 		r.read1--
+		vhookq("ring.nw.none", r, n)
 	}
 	n.c1.L.Unlock()
 	return
@@ -113,11 +123,14 @@ func (r *ring) WaitForWrite() (one Completed, multi []Completed, ch chan RedisRe
 	n.c1.L.Lock()
 	for n.mark != 1 {
 		n.slept = true
+		vhookq("ring.ww.sleep", r, n)
 		n.c2.Wait() // c1 and c2 share the same mutex
 		n.slept = false
+		vhookq("ring.ww.woken", r, n)
 	}
 	one, multi, ch = n.one, n.multi, n.ch
 	n.mark = 2
+	vhookq("ring.ww.take", r, n)
 	n.c1.L.Unlock()
 	return
 }
@@ -135,8 +148,10 @@ func (r *ring) NextResultCh() (one Completed, multi []Completed, ch chan RedisRe
 		n.one = Completed{}
 		n.multi = nil
 		n.resps = nil
+		vhookq("ring.nr.take", r, n)
 	} else {
 		r.read2--
+		vhookq("ring.nr.none", r, n)
 	}
 	return
 }
@@ -144,6 +159,7 @@ func (r *ring) NextResultCh() (one Completed, multi []Completed, ch chan RedisRe
 // FinishResult should be only called by one dedicated thread
 func (r *ring) FinishResult() {
 	if r.resc != nil {
+		vhook("ring.fin", r, 0, 0)
 		r.resc.L.Unlock()
 		r.resc.Signal()
 		r.resc = nil
